@@ -27,7 +27,10 @@ def ase_atoms(case):
     import ase
     atoms = ase.Atoms(case.get("symbols", "H" * len(case["pos"])), positions=np.array(case["pos"], dtype=float),
                       cell=np.diag(case["cell"]), pbc=False)
-    atoms.set_velocities(np.array(case["vel"], dtype=float))
+    if not case.get("omit_vel"):
+        # omit_vel: a configuration without momenta (Atoms.get_velocities() then gives zeros;
+        # case["vel"] is all zeros in such a case)
+        atoms.set_velocities(np.array(case["vel"], dtype=float))
     return atoms
 
 
@@ -92,6 +95,15 @@ def make_tmd(case, wd):
     conf = os.path.join(wd, "start.xyz")
     box = np.array([100.0, 1.0, 1.0])
     decoy = np.array(case["pos"], dtype=float) + 3.0
+    if case.get("omit_box") or case.get("omit_vel"):
+        # a phase point whose file lacks the optional entries of the xyz format: no "Box:" in
+        # the comment line (TurtleMD takes its box from [engine.box]) and / or no velocity
+        # columns (read as zeros; case["vel"] is all zeros then)
+        import c12_harness as H
+        fbox = None if case.get("omit_box") else box
+        H.write_xyz_conf(conf, decoy.tolist(), case["vel"], fbox, names=["Z"], omit_vel=bool(case.get("omit_vel")))
+        H.write_xyz_conf(conf, case["pos"], case["vel"], fbox, names=["Z"], omit_vel=bool(case.get("omit_vel")), append=True)
+        return e, conf, 1
     write_xyz_trajectory(conf, decoy, np.array(case["vel"], dtype=float), ["Z"], box, append=False)
     write_xyz_trajectory(conf, np.array(case["pos"], dtype=float), np.array(case["vel"], dtype=float), ["Z"], box)
     return e, conf, 1
@@ -205,3 +217,48 @@ def run_inproc(case):
                              j + 1, [-1e9, 1e9])
         res["back"] = obs2
     return res
+
+
+# --------------------------------------------------------------------------- calculate_order probe
+
+
+CALC_PROBE = {"given": {"xyz": 1.5, "vel": 0.5, "box": 8.0}, "file": {"xyz": 2.25, "vel": -0.25, "box": 16.0},
+              "sysbox": 32.0, "order": {"class": "LinOrder", "wx": 1.0, "wv": 2.0, "wb": 0.5}}
+
+
+def calc_combos():
+    """Every way of giving / not giving the three overrides x vel_rev x file with / without box entry."""
+    out = []
+    for rv in (False, True):
+        for fbox in (True, False):
+            for mask in range(8):
+                out.append({"rv": rv, "file_box": fbox, "xyz": bool(mask & 1), "vel": bool(mask & 2), "box": bool(mask & 4)})
+    return out
+
+
+def run_calcorder(case):
+    """The REAL EngineBase.calculate_order (through a TurtleMDEngine: xyz reader) called with every
+    combination of given / missing overrides on a System that points to a configuration file."""
+    import c12_harness as H
+    from infretis.classes.system import System
+    wd = case["wd"]
+    os.makedirs(wd, exist_ok=True)
+    probe = {"timestep": 0.025, "subcycles": 1, "beta": 4.0, "gamma": 0.3, "a": 1.0, "b": 2.0, "c": 0.0,
+             "pos": [[0.0, 0.0, 0.0]], "vel": [[0.0, 0.0, 0.0]]}
+    engine, _, _ = make_tmd(probe, wd)
+    engine.order_function = H.make_order(CALC_PROBE["order"])
+    g, f = CALC_PROBE["given"], CALC_PROBE["file"]
+    vals = []
+    for k, c in enumerate(case["combos"]):
+        conf = os.path.join(wd, f"probe_{k}.xyz")
+        H.write_xyz_conf(conf, [[f["xyz"], 0.0, 0.0]], [[f["vel"], 0.0, 0.0]], [f["box"], 1.0, 1.0] if c["file_box"] else None,
+                         names=["Z"])
+        s = System()
+        s.config = (conf, 0)
+        s.vel_rev = c["rv"]
+        s.box = np.array([CALC_PROBE["sysbox"], 1.0, 1.0])
+        val = engine.calculate_order(s, xyz=np.array([[g["xyz"], 0.0, 0.0]]) if c["xyz"] else None,
+                                     vel=np.array([[g["vel"], 0.0, 0.0]]) if c["vel"] else None,
+                                     box=np.array([g["box"], 1.0, 1.0]) if c["box"] else None)
+        vals.append(float(val[0]))
+    return {"values": vals}
